@@ -85,7 +85,8 @@ Lemma bic_loop_spec d : num_of d 0 = None -> forall f cur target r,
   bic_loop f d cur target = Some r ->
   ri r = 0 \/
   (reach (store d) cur (ri r) /\
-   (r = mkR cur target \/ forall e', find (ri r) (store d) = Some e' -> rn r <= bnum (eb e'))).
+   (r = mkR cur target \/
+    (num_of d (ri r) <> None /\ forall e', find (ri r) (store d) = Some e' -> rn r <= bnum (eb e')))).
 Proof.
   intros Hz. induction f as [|f IH]; intros cur target r H; [discriminate|].
   cbn [bic_loop] in H.
@@ -101,19 +102,20 @@ Proof.
   { intros e' Fe'. unfold num_of in Hn. rewrite Fe' in Hn. congruence. }
   destruct (N.eqb_spec pn target) as [E|E].
   - injection H as <-. right. cbn [ri rn]. split; [apply Hstep; constructor|].
-    right. intros e' Fe'. rewrite (Hpn e' Fe'). lia.
+    right. split; [congruence|]. intros e' Fe'. rewrite (Hpn e' Fe'). lia.
   - destruct (N.ltb_spec pn target) as [Lt|Ge].
     + injection H as <-. right. cbn [ri]. split; [constructor | left; reflexivity].
     + destruct (IH _ _ _ H) as [Z|(Hr & Hnum)]; [left; exact Z|]. right. split; [apply Hstep; exact Hr|].
       right. destruct Hnum as [-> | Hnum]; [|exact Hnum].
-      cbn [ri rn]. intros e' Fe'. rewrite <- (Hpn e' Fe'). lia.
+      cbn [ri rn]. split; [congruence|]. intros e' Fe'. rewrite <- (Hpn e' Fe'). lia.
 Qed.
 
 Lemma bic_spec d start target : wf_store (store d) -> num_of d 0 = None ->
   exists r, block_in_chain d start target = Some r /\
     (ri r = 0 \/
      (reach (store d) (ri start) (ri r) /\
-      (ri r = ri start \/ forall e', find (ri r) (store d) = Some e' -> rn r <= bnum (eb e')))).
+      (ri r = ri start \/
+       (num_of d (ri r) <> None /\ forall e', find (ri r) (store d) = Some e' -> rn r <= bnum (eb e'))))).
 Proof.
   intros Hwf Hz. unfold block_in_chain. destruct (rn start =? target).
   - exists start. split; [reflexivity|]. right. split; [constructor | left; reflexivity].
@@ -121,6 +123,23 @@ Proof.
     exists r. split; [exact Hr|].
     destruct (bic_loop_spec d Hz _ _ _ _ Hr) as [Z|(Hre & Hnum)]; [left; exact Z|]. right. split; [exact Hre|].
     destruct Hnum as [-> | Hnum]; [left; reflexivity | right; exact Hnum].
+Qed.
+
+(* BlockInCurrentChain reads the links and the numbers only: it does not see sent flags nor the LIB reference *)
+Lemma bic_loop_ext d d' : (forall x, link_of d x = link_of d' x) -> (forall x, num_of d x = num_of d' x) ->
+  forall f cur target, bic_loop f d cur target = bic_loop f d' cur target.
+Proof.
+  intros Hl Hn. induction f as [|f IH]; intros cur target; [reflexivity|].
+  cbn [bic_loop]. rewrite <- Hl, <- Hn. destruct (num_of d (link_of d cur)) as [pn|]; [|reflexivity].
+  destruct (pn =? target); [reflexivity|]. destruct (pn <? target); [reflexivity|]. apply IH.
+Qed.
+
+Lemma bic_ext d d' start target : (forall x, link_of d x = link_of d' x) -> (forall x, num_of d x = num_of d' x) ->
+  length (store d) = length (store d') ->
+  block_in_chain d start target = block_in_chain d' start target.
+Proof.
+  intros Hl Hn Hlen. unfold block_in_chain, fuel_of. rewrite Hlen.
+  destruct (rn start =? target); [reflexivity|]. apply bic_loop_ext; assumption.
 Qed.
 
 (* ---------- ReversibleSegment, no assumption on the numbers ---------- *)
